@@ -44,6 +44,13 @@ pub fn big_policy() -> Policy {
     timing_policy(false)
 }
 
+/// SMALL with one partition per message and per early-termination processing call.
+pub fn backlog_policy() -> Policy {
+    let mut p = timing_policy(true);
+    p.addressed_partitions_max = 1;
+    p
+}
+
 fn timing_policy(two_k: bool) -> Policy {
     let mut p = Policy::default();
     p.wpost_proving_period = 24;
